@@ -422,36 +422,3 @@ Lemma delta_values :
   u64 (u64 (32 * 288230376151711744) - 288230376151711744) = 36028797018963968 * 248 /\
   u64 (u64 (u64 (32 * 288230376151711744) - 288230376151711744) - 144115188075855872) = 36028797018963968 * 244.
 Proof. split; reflexivity. Qed.
-
-(* _dispatch_queue_wakeup's loop WITHOUT MAKE_DIRTY (the need_override wakeup of a push that found the list non-empty):
-   merges the qos, sets ENQUEUED when allowed, gives up when nothing changes *)
-Lemma wakeup_fields_plain r qos flags target :
-  wfr r -> 0 <= qos < 8 -> nz (Z.land flags 2) = false ->
-  wakeup_loop 0 qos flags target (enc r) 2147483648 =
-  let m := merged r qos in
-  let r2 := mk (f_owner m) (f_tr m) (if can_enqueue r then 1 else f_enq m) (f_mq m) (f_ov m) (f_role m) (f_em m) (f_d m)
-               (f_pb m) (f_wq m) (f_ib m) (f_hi m) in
-  if enc r2 =? enc r then NoCommit 2 [] else Commit (enc r2) 0.
-Proof.
-  intros W Q F. pose proof W as W'. unfold wfr in W'.
-  unfold wakeup_loop. cbv zeta. rewrite F.
-  rewrite merge_qos_fields by assumption.
-  rewrite is_suspended_f, is_enqueued_f, drain_locked_f, base_wlh_f by exact W.
-  change (2147483648 =? 274877906944) with false. cbn [negb andb].
-  pose proof (merged_wf r qos W Q) as Wm. pose proof Wm as Wm'. unfold wfr in Wm'.
-  set (m := merged r qos) in *.
-  assert (Same : f_owner m = f_owner r /\ f_tr m = f_tr r /\ f_enq m = f_enq r /\ f_em m = f_em r /\ f_hi m = f_hi r).
-  { subst m. unfold merged. destruct (f_mq r <? qos); cbn; auto. }
-  destruct Same as (S1 & S2 & S3 & S4 & S5).
-  assert (C : (negb (0 <? f_hi r) && negb (negb ((f_enq r =? 0) && (f_em r =? 0))) &&
-               (negb (negb (f_owner r =? 0)) || (2 <=? f_role r))) = can_enqueue r).
-  { unfold can_enqueue. rewrite !negb_involutive.
-    destruct (Z.ltb_spec 0 (f_hi r)); destruct (Z.eqb_spec (f_hi r) 0); try lia; cbn [negb andb]; try reflexivity;
-      try (rewrite andb_assoc; reflexivity). }
-  rewrite negb_involutive. rewrite C.
-  destruct (can_enqueue r) eqn:CE.
-  - rewrite (enc_vec m). vec_lor 2147483648.
-    unfold can_enqueue in CE. rewrite !andb_true_iff in CE. destruct CE as [[[_ CE2] _] _]. apply Z.eqb_eq in CE2.
-    rewrite S3, CE2. change (Z.lor 0 1) with 1. fsimp. reflexivity.
-  - destruct m; reflexivity.
-Qed.
